@@ -96,8 +96,27 @@ func fuzzGenome(r *rand.Rand, g *genetics.Genome, id int) (*genetics.Genome, *Sn
 			s.Nodes[i].TraitId = 0
 		}
 	}
+	if len(s.Modules) == 0 && len(s.Nodes) > 0 && r.Intn(10) == 0 {
+		// nodes numbered from zero (ids only have to be unique and ascending; applications that number from zero exist)
+		min := s.Nodes[0].Id
+		for _, n := range s.Nodes {
+			if n.Id < min {
+				min = n.Id
+			}
+		}
+		for i := range s.Nodes {
+			s.Nodes[i].Id -= min
+		}
+		for i := range s.Genes {
+			s.Genes[i].In -= min
+			s.Genes[i].Out -= min
+		}
+		c15ZeroBased++
+	}
 	return buildFromSnap(s), s
 }
+
+var c15ZeroBased int
 
 func hasExtreme(s *SnapGenome) bool {
 	for _, g := range s.Genes {
@@ -175,6 +194,8 @@ func runC15(c *Ctx, idx int) {
 	if c.Violated() {
 		return
 	}
+	c.Count("genomes.nodes_numbered_from_zero", c15ZeroBased)
+	c15ZeroBased = 0
 	if !c15OrganismBatch(c, r, fuzzed, snaps) {
 		return
 	}
